@@ -4,6 +4,13 @@ Post-hooks (vmon.monitors.mesh) on every generator class and every
 transformation tool judge each call against oracle-side cell geometry.  The
 workload are the generators with seeded arguments and random *programs*
 (sequences of transformations applicable to the current cell type).
+
+Bodies and tool arguments come in four length units; by step index a program
+hands the body over as generated / renumbered / Fortran-ordered with 32-bit
+cells and calls the tool as a method or as the module-level function
+``felupe.mesh.<tool>`` in one of the five documented call styles (judged by
+the same post-conditions, ``vmon.monitors.mesh.call_function``).  The special
+cases drive every documented argument at least once by construction.
 """
 import numpy as np
 
@@ -13,31 +20,42 @@ from ..oracles import cells as OC
 from ..util import rng_for
 
 
-def gen_mesh(rng, kind):
+# length units of the bodies (the length unit is arbitrary: millimetres in metres, micrometres, kilometres): generator arguments and
+# the arguments of the tools are drawn in units of the body, so that an absolute threshold hidden in a tool shows
+UNITS = (1.0, 1e-3, 1e3, 1e-6)
+
+
+def gen_mesh(rng, kind, u=1.0):
     import felupe as fem
     if kind == "line":
-        a = float(rng.uniform(-1, 1))
-        return fem.mesh.Line(a=a, b=a + float(rng.uniform(0.5, 2)), n=int(rng.integers(2, 6)))
+        a = u * float(rng.uniform(-1, 1))
+        return fem.mesh.Line(a=a, b=a + u * float(rng.uniform(0.5, 2)), n=int(rng.integers(2, 6)))
     if kind == "rectangle":
-        a = rng.uniform(0.1, 1, 2)
-        return fem.Rectangle(a=tuple(a), b=tuple(a + rng.uniform(0.5, 2, 2)), n=tuple(int(x) for x in rng.integers(2, 5, 2)))
+        a = u * rng.uniform(0.1, 1, 2)
+        return fem.Rectangle(a=tuple(a), b=tuple(a + u * rng.uniform(0.5, 2, 2)), n=tuple(int(x) for x in rng.integers(2, 5, 2)))
     if kind == "cube":
-        a = rng.uniform(0.1, 1, 3)
-        return fem.Cube(a=tuple(a), b=tuple(a + rng.uniform(0.5, 2, 3)), n=tuple(int(x) for x in rng.integers(2, 4, 3)))
+        a = u * rng.uniform(0.1, 1, 3)
+        return fem.Cube(a=tuple(a), b=tuple(a + u * rng.uniform(0.5, 2, 3)), n=tuple(int(x) for x in rng.integers(2, 4, 3)))
     if kind == "grid2":
-        xs = [np.cumsum(rng.uniform(0.2, 1, int(rng.integers(2, 5)))) for _ in range(2)]
+        xs = [u * np.cumsum(rng.uniform(0.2, 1, int(rng.integers(2, 5)))) for _ in range(2)]
         return fem.Grid(*xs)
     if kind == "grid3":
-        xs = [np.cumsum(rng.uniform(0.2, 1, int(rng.integers(2, 4)))) for _ in range(3)]
+        xs = [u * np.cumsum(rng.uniform(0.2, 1, int(rng.integers(2, 4)))) for _ in range(3)]
         return fem.Grid(*xs)
     if kind == "circle":
-        return fem.Circle(radius=float(rng.uniform(0.5, 3)), centerpoint=list(rng.uniform(3, 4, 2)), n=int(rng.integers(2, 6)))
+        return fem.Circle(radius=u * float(rng.uniform(0.5, 3)), centerpoint=list(u * rng.uniform(3, 4, 2)), n=int(rng.integers(2, 6)))
     if kind == "triangle":
         pa = rng.uniform(0.5, 1, 2)
         pb = pa + np.array([rng.uniform(1, 2), rng.uniform(-0.3, 0.3)])
         pc = pa + np.array([rng.uniform(-0.3, 0.8), rng.uniform(1, 2)])
-        return fem.mesh.Triangle(a=tuple(pa), b=tuple(pb), c=tuple(pc), n=int(rng.integers(2, 6)))
+        if u == 1.0:
+            return fem.mesh.Triangle(a=tuple(pa), b=tuple(pb), c=tuple(pc), n=int(rng.integers(2, 6)))
+        # ``decimals`` is an absolute length by documentation (the joined sections are rounded to it): given in units of the body
+        return fem.mesh.Triangle(a=tuple(u * pa), b=tuple(u * pb), c=tuple(u * pc), n=int(rng.integers(2, 6)), decimals=12 - int(round(np.log10(u))))
     raise KeyError(kind)
+
+
+KINDS = ("line", "rectangle", "cube", "grid2", "grid3", "circle", "triangle")
 
 
 def case_generators(rep):
@@ -46,8 +64,26 @@ def case_generators(rep):
         rng = rng_for(run.seed, "C16", "generators", rep)
         MM.attach_hooks(run)
         try:
-            for kind in ("line", "rectangle", "cube", "grid2", "grid3", "circle", "triangle"):
+            for kind in KINDS:
                 gen_mesh(rng, kind)
+            # the same generators in other length units (every generator meets every unit over four repetitions)
+            for k, kind in enumerate(KINDS):
+                for j in (1, 2, 3) if run.tier == "thorough" else (1 + (rep + k) % 3,):
+                    u = UNITS[j]
+                    gen_mesh(rng, kind, u)
+                    run.units["generator-unit:%g" % u] += 1
+            # the documented defaults of the generators (the hooks read the defaults from the signatures; here they are stated): unit
+            # line / square / cube from the origin with one cell, unit circle about the origin with n = 2, the triangle (0,0) (1,0) (0,1)
+            if rep == 0:
+                for gname, g, lo, hi, npts in (("Line", fem.mesh.Line(), [0.0], [1.0], 2), ("Rectangle", fem.Rectangle(), [0.0, 0.0], [1.0, 1.0], 4),
+                                               ("Cube", fem.Cube(), [0.0] * 3, [1.0] * 3, 8), ("Circle", fem.Circle(), [-1.0, -1.0], [1.0, 1.0], 17),
+                                               ("Triangle", fem.mesh.Triangle(), [0.0, 0.0], [1.0, 1.0], 7),
+                                               ("RectangleArbitraryOrderQuad", fem.mesh.RectangleArbitraryOrderQuad(), [0.0, 0.0], [1.0, 1.0], 9),
+                                               ("CubeArbitraryOrderHexahedron", fem.mesh.CubeArbitraryOrderHexahedron(), [0.0] * 3, [1.0] * 3, 27)):
+                    run.compare("mesh.gen." + gname, "generator=%s clause=documented-defaults" % gname,
+                                max(float(np.abs(g.points.min(0) - lo).max()), float(np.abs(g.points.max(0) - hi).max())) + float(g.npoints != npts), 1e-12,
+                                "%s(): bounding box or number of points differ from the documented default arguments" % gname,
+                                unit="generator:documented-defaults", config=("generator-defaults", gname))
             # every argument of the grid generator: both meshgrid indexings, one to three axes
             for nax in (1, 2, 3):
                 xs = [np.cumsum(rng.uniform(0.2, 1, int(rng.integers(3, 5)) + k)) for k in range(nax)]
@@ -62,12 +98,37 @@ def case_generators(rep):
             # scalar point counts
             fem.Rectangle(a=(0.3, -0.2), b=(1.1, 0.9), n=int(rng.integers(2, 5)))
             fem.Cube(a=(0.3, -0.2, 1.0), b=(1.1, 0.9, 1.7), n=int(rng.integers(2, 4)))
+            # point counts that differ on every axis, drawn in any order (an axis mix-up shows on the grid nodes)
+            n3 = [int(x) for x in rng.permutation([2, 3, 5])]
+            fem.Rectangle(a=(0.3, -0.2), b=(1.1, 0.9), n=tuple(n3[:2]))
+            fem.Cube(a=(0.3, -0.2, 1.0), b=(1.1, 0.9, 1.7), n=tuple(n3))
+            # the documented argument types: lists, arrays (also of integers), tuples
+            fem.mesh.Line(a=-1, b=2, n=np.int64(4))
+            fem.Rectangle(a=[0, 1], b=np.array([2, 3]), n=[4, 3])
+            fem.Cube(a=np.array([0, -1, 2]), b=[2, 1, 3.5], n=np.array([3, 2, 4]))
+            fem.Grid([0, 1, 3], (0, 2, 5, 6))
+            fem.Grid(np.array([0, 1, 3]), [0.5, 2], np.linspace(0, 1, 3))
+            fem.Circle(radius=2, centerpoint=(1, -1), sections=(0, 90), n=3)
+            fem.Circle(radius=np.float64(1.5), centerpoint=np.array([1.0, -1.0]), sections=np.array([45.0, 225.0]), n=np.int64(3))
+            fem.mesh.Triangle(a=[0, 0], b=[3, 0], c=[1, 2], n=3)
+            fem.mesh.Triangle(a=np.array([0.5, 0.1]), b=(3, 0), c=[1, 2.5], n=np.int64(4))
+            # the rounding of the joined sections, a documented argument
+            fem.Circle(radius=float(rng.uniform(0.5, 3)), n=int(rng.integers(2, 5)), decimals=int(rng.integers(6, 9)))
+            fem.mesh.Triangle(a=(0.3, 0.2), b=(1.2, 0.1), c=(0.1, 0.9), n=int(rng.integers(2, 6)), decimals=int(rng.integers(6, 9)))
             for order in (2, 3, 4, 5):
                 a = rng.uniform(-1, 0, 2)
                 fem.mesh.RectangleArbitraryOrderQuad(a=tuple(a), b=tuple(a + rng.uniform(1, 2, 2)), order=order)
                 if order < 5 or run.tier == "thorough":
                     a = rng.uniform(-1, 0, 3)
                     fem.mesh.CubeArbitraryOrderHexahedron(a=tuple(a), b=tuple(a + rng.uniform(1, 2, 3)), order=order)
+            # the remaining orders: the linear cell and high orders
+            for order in (1, 6, 7):
+                a = rng.uniform(-1, 0, 2)
+                fem.mesh.RectangleArbitraryOrderQuad(a=tuple(a), b=tuple(a + rng.uniform(1, 2, 2)), order=order)
+                if order < 6 or run.tier == "thorough":
+                    a = rng.uniform(-1, 0, 3)
+                    fem.mesh.CubeArbitraryOrderHexahedron(a=tuple(a), b=tuple(a + rng.uniform(1, 2, 3)), order=order)
+                run.units["generator:lagrange-order:%d" % order] += 1
         finally:
             attach.detach_all()
     return fn
@@ -93,36 +154,86 @@ def applicable(m):
         ops += ["volumes"]
     if ct in ("triangle6", "tetra10", "quad8", "quad9", "hexahedron20", "hexahedron27"):
         ops += ["rotate", "translate", "disconnect"]
+    # the remaining source types of the mid-point tools (results without a name end the program) and the partial rotation
+    if ct in ("tetra10", "hexahedron20", "tetra14"):
+        ops += ["volumes"]
+    if ct in ("quad", "hexahedron"):
+        ops += ["faces"]
+    if "rotate" in ops:
+        ops += ["rotate-mask"]
     return ops
 
 
-def apply_op(rng, m, op):
+def vary(run, m, variant):
+    """The same body handed over in another way: points and cells in another order (numbers carry no meaning), or as
+    Fortran-ordered points with Fortran-ordered 32-bit cells."""
     import felupe as fem
+    from .. import gen
+    if variant == 2:
+        run.units["variant:renumbered"] += 1
+        return gen.renumber(m, every=1)
+    if variant == 3:
+        run.units["variant:fortran-int32"] += 1
+        return fem.Mesh(np.asfortranarray(m.points), np.asfortranarray(m.cells.astype(np.int32)), m.cell_type)
+    return m
+
+
+def caller(run, style=None):
+    """How a tool is called: the method of the mesh, or the module-level function ``felupe.mesh.<tool>`` with the mesh / with the
+    arrays in one of the documented styles (judged by the same post-condition, vmon.monitors.mesh.call_function)."""
+    def call(mesh, tool, *args, **kw):
+        if style is None or not hasattr(mesh, tool):
+            return getattr(mesh, tool)(*args, **kw)
+        if tool.startswith("add_midpoints") and "cell_type" in kw:
+            kw["cell_type_new"] = kw.pop("cell_type")
+        run.units["variant:function"] += 1
+        return MM.call_function(run, tool, mesh, style, *args, **kw)
+    return call
+
+
+def apply_op(rng, m, op, u=1.0, call=None):
+    import felupe as fem
+    if call is None:
+        call = caller(None)
     dim = m.points.shape[1]
     if op == "rotate":
-        return m.rotate(float(rng.uniform(-180, 180)), axis=int(rng.integers(0, 3)) if dim == 3 else 2,
-                        center=list(rng.uniform(-1, 1, dim)))
+        return call(m, "rotate", float(rng.uniform(-180, 180)), axis=int(rng.integers(0, 3)) if dim == 3 else 2,
+                    center=list(u * rng.uniform(-1, 1, dim)))
+    if op == "rotate-mask":
+        # a part of the points only (boolean mask as array or list; now and then nobody or everybody)
+        mask = rng.uniform(size=m.npoints) < [0.5, 0.5, 0.0, 1.0][int(rng.integers(0, 4))]
+        return call(m, "rotate", angle_deg=float(rng.uniform(-30, 30)), axis=int(rng.integers(0, 3)) if dim == 3 else 2,
+                    center=list(u * rng.uniform(-1, 1, dim)), mask=mask if rng.integers(0, 2) else mask.tolist())
     if op == "translate":
-        return m.translate(float(rng.uniform(-2, 2)), axis=int(rng.integers(0, dim)))
+        return call(m, "translate", u * float(rng.uniform(-2, 2)), axis=int(rng.integers(0, dim)))
     if op == "mirror":
         if rng.integers(0, 2):
-            return m.mirror(axis=int(rng.integers(0, dim)), centerpoint=list(rng.uniform(-1, 1, 3)))
-        return m.mirror(normal=list(rng.standard_normal(3)), centerpoint=list(rng.uniform(-1, 1, 3)))
+            return call(m, "mirror", axis=int(rng.integers(0, dim)), centerpoint=list(u * rng.uniform(-1, 1, 3)))
+        return call(m, "mirror", normal=list(rng.standard_normal(3)), centerpoint=list(u * rng.uniform(-1, 1, 3)))
     if op == "flipflip":
-        mask = rng.uniform(size=m.ncells) < 0.5
-        f = m.flip(mask)
-        return f.flip(mask)
+        mask = rng.uniform(size=m.ncells) < [0.5, 0.5, 0.5, 0.0][int(rng.integers(0, 4))]
+        if rng.integers(0, 3) == 0:
+            mask = mask.tolist()  # documented: list or array
+        f = call(m, "flip", mask)
+        return call(f, "flip", mask=mask)
     if op == "triangulate":
-        return m.triangulate(mode=int(rng.choice([0, 3]))) if m.cell_type == "hexahedron" else m.triangulate()
+        return call(m, "triangulate", mode=int(rng.choice([0, 3]))) if m.cell_type == "hexahedron" else call(m, "triangulate")
     if op == "expand":
-        if rng.integers(0, 2):
-            return m.expand(n=int(rng.integers(2, 5)), z=float(rng.uniform(0.3, 2)))
-        return m.expand(z=np.cumsum(rng.uniform(0.2, 1, int(rng.integers(2, 5)))))
+        k = int(rng.integers(0, 8))
+        if k < 3:
+            return call(m, "expand", n=int(rng.integers(2, 5)), z=u * float(rng.uniform(0.3, 2)))
+        if k < 6:
+            z = u * np.cumsum(rng.uniform(0.2, 1, int(rng.integers(2, 5))))
+            return call(m, "expand", z=[z, tuple(z), z.tolist()][k - 3])
+        if k == 6:
+            # the new axis given by its number; a conflicting n next to the array of positions (the array decides)
+            return call(m, "expand", n=int(rng.integers(2, 5)), z=u * float(rng.uniform(0.3, 2)), axis=dim)
+        return call(m, "expand", n=2, z=u * np.cumsum(rng.uniform(0.2, 1, int(rng.integers(3, 5)))), axis=-1, expand_dim=True)
     if op == "revolve":
         # the body must lie on the positive side of the rotation axis
         axis = int(rng.integers(0, 2)) if m.cell_type == "quad" else 2
         r_index = 1 - axis if m.cell_type == "quad" else 0
-        shift = max(0.0, 0.2 - m.points[:, r_index].min())
+        shift = max(0.0, 0.2 * u - m.points[:, r_index].min())
         mm = m.translate(shift, axis=r_index) if shift > 0 else m
         closing = rng.integers(0, 3) == 0
         phi = 360 if closing else float(rng.uniform(20, 300))
@@ -143,19 +254,27 @@ def apply_op(rng, m, op):
                 # an open sweep that starts later and ends exactly at 360 degrees
                 angles = angles[angles > 1e-9]
                 angles = angles + (360.0 - angles[-1])
+            if start == 3 and rng.integers(0, 2):
+                angles = tuple(angles.tolist())  # documented: float or array - lists and tuples of angles as well
             if rng.integers(0, 3) == 0 and len(angles) > 2:
-                return mm.revolve(n=int(rng.integers(2, len(angles))), phi=angles, axis=axis)
-            return mm.revolve(phi=angles, axis=axis)
-        return mm.revolve(n=nseg + 1, phi=phi, axis=axis)
+                return call(mm, "revolve", n=int(rng.integers(2, len(angles))), phi=angles, axis=axis)
+            return call(mm, "revolve", phi=angles, axis=axis)
+        return call(mm, "revolve", n=nseg + 1, phi=phi, axis=axis)
     if op == "edges":
-        return m.add_midpoints_edges()
+        return call(m, "add_midpoints_edges")
     if op == "faces":
-        return m.add_midpoints_faces()
+        return call(m, "add_midpoints_faces")
     if op == "volumes":
-        return m.add_midpoints_volumes()
+        return call(m, "add_midpoints_volumes")
     if op == "convert":
-        full = bool(rng.integers(0, 2))
-        return m.convert(order=2, calc_midfaces=full, calc_midvolumes=full and dim == 3)
+        k = int(rng.integers(0, 6))
+        if k == 4:
+            # one point per cell: the mean of the cell's points (or zeros)
+            return call(m, "convert", order=0, calc_points=bool(rng.integers(0, 4)))
+        if k == 5 and dim == 3:
+            return call(m, "convert", order=2, calc_midfaces=False, calc_midvolumes=True)
+        full = bool(k % 2)
+        return call(m, "convert", order=2, calc_midfaces=full, calc_midvolumes=full and dim == 3)
     if op == "concat":
         ext = m.points[:, 0].max() - m.points[:, 0].min()
         m2 = m.translate(ext, axis=0)  # shares a face with m when m is an axis-aligned box, disjoint otherwise
@@ -172,8 +291,11 @@ def apply_op(rng, m, op):
         return fem.mesh.concatenate([m, m2])
     if op == "merge":
         dec = [None, 8, 5][int(rng.integers(0, 3))]
-        return m.merge_duplicate_points(decimals=dec)
+        # (the rounding tolerance is an absolute length: 8 / 5 digits in units of the body)
+        return call(m, "merge_duplicate_points", decimals=dec if dec is None else dec - int(round(np.log10(u))))
     if op == "disconnect":
+        if m.cell_type in OC.NV and rng.integers(0, 3) == 0:
+            return m.disconnect(points_per_cell=OC.NV[m.cell_type])  # the vertex cells only (result without a name)
         return m.disconnect()
     raise KeyError(op)
 
@@ -184,8 +306,11 @@ def case_program(rep):
         rng = rng_for(run.seed, "C16", "program", rep)
         MM.attach_hooks(run)
         try:
-            kind = ["line", "rectangle", "cube", "grid2", "circle", "triangle", "grid3"][rep % 7]
-            m = gen_mesh(rng, kind)
+            kind = KINDS_PROGRAM[rep % 7]
+            # every kind of body in every length unit (28 programs), bodies of unit size first
+            u = UNITS[(rep // 7) % 4]
+            m = gen_mesh(rng, kind, u)
+            run.units["program-unit:%g" % u] += 1
             length = int(rng.integers(3, 7))
             prog = [kind]
             for step in range(length):
@@ -193,15 +318,21 @@ def case_program(rep):
                 if not ops:
                     break
                 op = str(rng.choice(ops))
+                # by index, not by draw: how the body is handed over (as it is / renumbered / Fortran-ordered 32-bit) and how the
+                # tool is called (method / module-level function in one of the five call styles)
+                variant = (rep + step) % 4
+                call = caller(run, MM.STYLES[(rep // 4 + step) % 5] if variant == 1 else None)
                 try:
-                    m2 = apply_op(rng, m, op)
+                    m2 = apply_op(rng, vary(run, m, variant), op, u, call)
                 except (KeyError, NotImplementedError, TypeError) as exc:
                     # a tool that refuses a cell type raises loudly: outside the property
                     run.note("tool %s refused %s: %s" % (op, m.cell_type, type(exc).__name__))
                     continue
                 prog.append(op)
-                if m2.cell_type is None:
-                    break
+                if op == "rotate-mask":
+                    continue  # judged by its hook; the partly rotated body is distorted (no input for the clauses on straight-sided cells)
+                if m2.cell_type is None or m2.cells.shape[1] != m.cells.shape[1] and m2.cell_type == m.cell_type:
+                    break  # a result without a name (or one point per cell): nothing is applicable to it
                 m = m2
             run.units["program-length>=3"] += 1 if len(prog) >= 4 else 0
             run.configs.add("program:" + ">".join(prog))
@@ -210,6 +341,9 @@ def case_program(rep):
         finally:
             attach.detach_all()
     return fn
+
+
+KINDS_PROGRAM = ["line", "rectangle", "cube", "grid2", "circle", "triangle", "grid3"]
 
 
 def case_special(name):
@@ -233,6 +367,46 @@ def case_special(name):
                     if base.cell_type == "tetra":
                         base.add_midpoints_volumes()
                         q.add_midpoints_faces()
+                # the remaining source types, flags and the ``cell_type`` argument (results without a VTK name carry None)
+                rt, ct4 = r.triangulate(), c.triangulate()
+                r.add_midpoints_faces()                                     # quad + its centre: no name
+                r.add_midpoints_faces(cell_type="quad")                     # documented usage: keeps the old label
+                c.add_midpoints_faces()
+                c.add_midpoints_edges().add_midpoints_volumes()             # hexahedron20 + centre: no name
+                ct4.add_midpoints_edges().add_midpoints_volumes()           # tetra10 + centre
+                ct4.add_midpoints_edges().add_midpoints_faces().add_midpoints_volumes()   # tetra14 -> tetra15
+                rt.add_midpoints_edges().add_midpoints_faces()              # triangle6 -> triangle7
+                c.add_midpoints_volumes(cell_type="hexahedron9")            # documented usage: a label of the caller's choice
+                r.add_midpoints_edges(cell_type="quad8")
+                for base in (c, ct4):
+                    base.convert(order=2, calc_midfaces=False, calc_midvolumes=True)
+                    base.convert(2, False, True, False)                     # order, calc_points, calc_midfaces, calc_midvolumes by position
+                for base in (rt, ct4):
+                    base.convert(order=2, calc_midfaces=True, calc_midvolumes=base.dim == 3)
+                for base in (r, c, rt, ct4):
+                    base.convert(order=0, calc_points=True)
+                    base.convert(order=0)
+                    base.convert()
+                    # the mid-points by themselves (the mechanism behind the three tools)
+                    base.collect_edges()
+                    q = base.add_midpoints_edges()
+                    if base.cell_type != "tetra":
+                        base.collect_faces()
+                    q.collect_faces()
+                    if base.dim == 3:
+                        base.collect_volumes()
+                        q.collect_volumes()
+                        q.add_midpoints_faces().collect_volumes()
+                    # vertex cells of disconnected higher-order meshes
+                    q.disconnect(points_per_cell=q.cells.shape[1] - (q.cells.shape[1] - OC.NV[q.cell_type]))
+                    base.disconnect(points_per_cell=OC.NV[base.cell_type])
+                # the same on bodies whose numbering carries no structure (the tools work on index tables)
+                from .. import gen
+                for base in (r, c, rt, ct4):
+                    g = gen.renumber(base, every=1)
+                    g.add_midpoints_edges()
+                    g.convert(order=2, calc_midfaces=True, calc_midvolumes=g.dim == 3)
+                    run.units["conversions:renumbered"] += 1
             elif name == "triangulate":
                 # extruded, in-plane distorted quads: planar faces but no parallelepipeds - a tetrahedral split that does not
                 # tile the cell changes the per-cell volume here (on parallelepipeds every tet is 1/6 of the cell)
@@ -262,11 +436,100 @@ def case_special(name):
                 fem.mesh.Line(a=1, b=3, n=4).revolve(phi=np.array([30.0, 120.0, 240.0, 300.0, 390.0]), axis=2)
                 fem.mesh.Line(a=1, b=3, n=4).expand(n=3, z=2.0)
                 fem.mesh.Point(a=0.5).expand(n=3, z=2.0)
+                # angles as tuple / list / integer array
+                r.revolve(phi=(0.0, 40.0, 75.0), axis=0)
+                r.revolve(phi=[0, 120, 240, 360], axis=0)
+                r.revolve(phi=np.array([0, 90, 180, 270, 360]), axis=0)
+                # a body that already lives in the space it is revolved in (``expand_dim=False``)
+                fem.mesh.Line(a=1, b=3, n=4).expand(n=1).revolve(n=6, phi=120, axis=2, expand_dim=False)
+                r.expand(n=1).revolve(n=5, phi=90, axis=0, expand_dim=False)
+                r.expand(n=1).revolve(n=7, phi=360, axis=0, expand_dim=False)
+                # points become (closed) polylines
+                fem.mesh.Point(a=1.5).revolve(n=7, phi=160)
+                fem.mesh.Point(a=2.0).revolve(n=9, phi=360)
+                fem.mesh.Point(a=float(rng.uniform(0.5, 2))).revolve(phi=np.array([10.0, 40.0, 100.0, 250.0]))
+                fem.mesh.Point(a=1.0).revolve()
+            elif name == "functions":
+                # the module-level spelling ``felupe.mesh.<tool>(...)`` (most documented examples) with a mesh and with the four documented
+                # ways to hand over ``points, cells, cell_type`` as arrays; every tool in every style, judged by the tool's post-condition
+                rt, ct4, q8 = r.triangulate(), c.triangulate(), r.add_midpoints_edges()
+                dbl = fem.mesh.concatenate([r, r.translate(1.5, 0)])
+                mask = [True, False, True, False, False, True]
+                calls = [("expand", r, (), dict(n=3, z=0.7)), ("expand", fem.mesh.Line(a=1, b=3, n=4), (), dict(z=[0.0, 0.4, 1.0])),
+                         ("rotate", r, (), dict(angle_deg=30, axis=2, center=[1, 1])), ("rotate", c, (-75.0, 1), {}),
+                         ("rotate", r, (40.0, 2), dict(mask=np.arange(r.npoints) % 3 == 0)),
+                         ("revolve", r, (), dict(n=5, phi=90)), ("revolve", r, (), dict(phi=[0, 30, 80])), ("revolve", fem.mesh.Point(a=1.5), (7, 200.0), {}),
+                         ("mirror", c, (), {}), ("expand", r, (), {}), ("revolve", r, (), {}), ("mirror", r, (), dict(axis=0)), ("mirror", c, (), dict(normal=[1, 0.3, -0.2], centerpoint=[0.1, 0.2, 0.3])), ("mirror", rt, ([0, 1, 0],), {}),
+                         ("flip", r, (), dict(mask=mask)), ("flip", ct4, (), {}),
+                         ("translate", r, (0.5,), dict(axis=1)), ("translate", c, (-0.3, 2), {}),
+                         ("triangulate", c, (), dict(mode=0)), ("triangulate", c, (3,), {}), ("triangulate", r, (), {}),
+                         ("convert", c, (), dict(order=2, calc_midfaces=True, calc_midvolumes=True)), ("convert", rt, (2,), {}), ("convert", ct4, (), dict(order=0, calc_points=True)),
+                         ("add_midpoints_edges", r, (), {}), ("add_midpoints_edges", ct4, (), dict(cell_type_new="tetra10")),
+                         ("add_midpoints_faces", q8, (), {}), ("add_midpoints_faces", r, (), dict(cell_type_new="quad")),
+                         ("add_midpoints_volumes", c, (), {}), ("add_midpoints_volumes", c.add_midpoints_edges().add_midpoints_faces(), (), {}),
+                         ("collect_edges", c, (), {}), ("collect_faces", q8, (), {}), ("collect_volumes", ct4, (), {}),
+                         ("merge_duplicate_points", dbl, (), dict(decimals=6)), ("merge_duplicate_points", dbl, (), {}),
+                         ("merge_duplicate_cells", fem.mesh.concatenate([r, r]).merge_duplicate_points(), (), {})]
+                for k, (tool, m, args, kw) in enumerate(calls):
+                    for j, style in enumerate(MM.STYLES):
+                        if run.tier == "thorough" or j in (0, 1 + k % 4, 1 + (k + 1) % 4):
+                            MM.call_function(run, tool, m, style, *args, **kw)
+            elif name == "expand":
+                # every documented argument of expand: any axis, without a new coordinate (bodies that already live in the space they are
+                # expanded in), negative thickness / decreasing positions (judged by measure, see the monitor), points, argument types
+                from .. import gen
+                ln = fem.mesh.Line(a=0.3, b=1.7, n=4)
+                lx = ln.expand(n=1)                                                   # the line in the plane (y = 0), still a line
+                lx.expand(n=3, z=0.8, axis=1, expand_dim=False)
+                lx.expand(n=3, z=0.8, axis=-1, expand_dim=False)
+                ly = fem.Mesh(lx.points[:, ::-1] + np.array([0.4, 0.0]), lx.cells, "line")    # a line along y, expanded along x
+                ly.expand(n=4, z=0.5, axis=0, expand_dim=False)
+                xs = np.cumsum(rng.uniform(0.2, 0.6, 5))
+                poly = fem.Mesh(np.c_[xs, 0.3 * rng.uniform(-1, 1, 5)], ln.__class__(n=5).cells, "line")    # a polyline, monotone in x
+                poly.expand(z=[0.1, 0.5, 0.6], axis=1, expand_dim=False)
+                gen.renumber(poly, every=1).expand(n=3, z=float(rng.uniform(0.3, 1)), axis=1, expand_dim=False)
+                rq3 = r.expand(n=1)                                                   # the quads in space (z = 0), still quads
+                rq3.expand(n=3, z=0.5, axis=2, expand_dim=False)
+                rq3.expand(z=(0.0, 0.25, 0.75), axis=-1, expand_dim=False)
+                xz = fem.Mesh(np.c_[r.points[:, 0], np.zeros(r.npoints), r.points[:, 1]], r.cells, "quad")   # quads in the x-z plane, along y
+                xz.expand(n=3, z=0.5, axis=1, expand_dim=False)
+                tilt = fem.Mesh(np.c_[r.points, 0.2 * r.points[:, 0] + 0.1 * r.points[:, 1] ** 2], r.cells, "quad")   # a curved surface
+                for ax in (0, 1, 2):
+                    tilt.expand(n=int(rng.integers(2, 5)), z=float(rng.uniform(0.3, 1)), axis=ax, expand_dim=False)
+                # the new axis by its number; layers in the negative sense (measure and layer positions are judged, not the sense)
+                for m in (ln, r, gen.renumber(r, every=1)):
+                    m.expand(n=3, z=1.0, axis=m.dim)
+                    m.expand(n=3, z=-1.0)
+                    m.expand(z=np.array([0.5, 0.2, -0.4]))
+                    m.expand(z=[-0.3, 0.1, 0.9])
+                r.expand()                                                            # documented defaults: eleven layers up to z = 1
+                ln.expand()
+                fem.mesh.Point(a=0.5).expand(n=4, z=2.0)
+                fem.mesh.Point(a=-1.0).expand(z=[0.0, 0.5, 2.0])
+                fem.mesh.Point(a=0.5).expand(n=3, z=-1.0)
+            elif name == "runouts":
+                # rubber run-outs: the documented examples and bodies away from the origin (centre point at mid-height / at one end)
+                fem.Rectangle(a=(-3, -1), b=(3, 1), n=(9, 5)).add_runouts(axis=1, values=[0.2], normalize=True)
+                fem.Cube(a=(-3, -2, -1), b=(3, 2, 1), n=(5, 4, 3)).add_runouts(axis=2, values=[0.1, 0.3], normalize=True)
+                for m in (r, c, r.triangulate(), c.triangulate()):
+                    lo, hi = m.points.min(0), m.points.max(0)
+                    for k in range(3):
+                        axis = int(rng.integers(0, m.dim))
+                        centre = 0.5 * (lo + hi) + 0.2 * (hi - lo) * rng.uniform(-1, 1, m.dim)
+                        centre[axis] = [0.5 * (lo + hi)[axis], lo[axis], hi[axis]][k]
+                        m.add_runouts(values=list(rng.uniform(0.05, 0.4, m.dim - 1)), centerpoint=list(centre), axis=axis,
+                                      exponent=int(rng.integers(1, 6)), normalize=bool(rng.integers(0, 2)))
+                    m.add_runouts(values=[-0.2, -0.1][: m.dim - 1], centerpoint=list(0.5 * (lo + hi)), axis=0)
+                fem.Cube(a=(-1, -1, -1), b=(1, 1, 1), n=3).add_runouts()              # documented defaults
             elif name == "mirror":
                 for m in (r, c, r.triangulate(), c.triangulate(), fem.mesh.Line(n=3)):
                     for ax in range(m.dim):
                         m.mirror(axis=ax, centerpoint=[0.5, 0.5, 0.5])
                     m.mirror(normal=[1, 0.3, -0.2], centerpoint=[0.1, 0.2, 0.3])
+                    m.mirror()                                   # documented defaults: the plane x = 0
+                    m.mirror(centerpoint=[0.7, 0, 0])
+                    if m.dim > 1:
+                        m.mirror([0, 1, 0], [0.0, 0.3, 0.0])     # normal and centre point by position
             elif name == "merge":
                 for m in (r, c, r.triangulate()):
                     ext = m.points[:, 0].max() - m.points[:, 0].min()
@@ -363,7 +626,84 @@ def case_special(name):
                         run.compare("mesh.container", "tool=concatenate clause=volume-of-container-meshes", abs(vj.sum() - k * v0.sum()) / v0.sum(), 1e-11,
                                     "concatenate of meshes taken out of a MeshContainer: covered volume differs from the sum of the parts",
                                     unit="container:concatenate-held-meshes", config=("container-concatenate", m.cell_type, k))
+                    # the rest of the container's interface: stacking everything (default), after removing a mesh, after an explicit
+                    # merge with a rounding tolerance, and on a copy that is extended (the original keeps its meshes)
+                    parts = [m, m.translate(ext, 0), m.translate(2 * ext, 0)]
+                    same = fem.MeshContainer(parts)
+                    for label, st, k in (("default", same.stack(), 3), ("slice", fem.mesh.stack(same[1:]), 2)):
+                        v = OC.signed_volumes(st.points, st.cells, st.cell_type)
+                        run.compare("mesh.container", "tool=MeshContainer clause=stack-volume", abs(v.sum() - k * v0.sum()) / v0.sum(), 1e-11,
+                                    "MeshContainer.stack() (%s): volume differs from the sum of the parts" % label, unit="container:stack-default",
+                                    config=("container", m.cell_type, label))
+                    same.merge_duplicate_points(decimals=6)
+                    exp = len(np.unique(np.round(np.vstack([q.points for q in parts]), 6), axis=0))
+                    st = same.stack()
+                    v = OC.signed_volumes(st.points, st.cells, st.cell_type)
+                    run.compare("mesh.container", "tool=MeshContainer clause=merge-then-stack", float(len(same.points) != exp or len(st.points) != exp) + abs(v.sum() - 3 * v0.sum()) / v0.sum()
+                                + float(not np.all(v > 0)), 1e-11, "MeshContainer.merge_duplicate_points(decimals=6) and stack(): point count, orientation or volume of the "
+                                "stacked mesh are not those of the merged parts", unit="container:merge-method", config=("container-merge", m.cell_type))
+                    twin = same.copy()
+                    twin += m.translate(3 * ext, 0)
+                    popped = twin.pop(0)
+                    st2 = twin.stack()
+                    v2 = OC.signed_volumes(st2.points, st2.cells, st2.cell_type)
+                    run.compare("mesh.container", "tool=MeshContainer clause=copy-append-pop", float(len(same.meshes) != 3 or len(twin.meshes) != 3 or popped.ncells != m.ncells)
+                                + abs(v2.sum() - 3 * v0.sum()) / v0.sum() + float(not np.all(v2 > 0)), 1e-11,
+                                "MeshContainer.copy() / += / pop(): the copy's stack after appending one and removing another mesh does not cover the three meshes it holds "
+                                "(or the original changed)", unit="container:copy-append-pop", config=("container-copy", m.cell_type))
+                # duplicate cells: a mesh joined with itself, points merged, has every cell twice - ``merge_duplicate_cells`` restores the mesh
+                for m in (r, c, r.triangulate(), c.triangulate(), fem.mesh.Line(a=0.5, b=2, n=4)):
+                    dbl = fem.mesh.concatenate([m, m, m.translate(float(np.ptp(m.points[:, 0])), 0)]).merge_duplicate_points(decimals=8)
+                    once = dbl.merge_duplicate_cells()
+                    v0 = OC.signed_volumes(m.points, m.cells, m.cell_type)
+                    v = OC.signed_volumes(once.points, once.cells, once.cell_type)
+                    run.compare("mesh.merge_duplicate_cells", "tool=merge_duplicate_cells clause=volume-of-the-distinct-cells", abs(v.sum() - 2 * v0.sum()) / v0.sum()
+                                + float(once.ncells != 2 * m.ncells), 1e-11, "merge_duplicate_cells: the mesh joined with itself and a neighbour does not come back as the two bodies",
+                                unit="merge_duplicate_cells:volume", config=("merge-cells", m.cell_type))
             elif name == "fill_between":
+                # quads between two lines in the plane with the layers at given relative positions (array ``n``); hexahedra between two
+                # quad surfaces in space (the documented example: two coaxial partial cylinder surfaces; two perturbed plates) - judged by
+                # the hook against layers and columns built from the two inputs
+                for k in range(3):
+                    n = int(rng.integers(3, 7))
+                    x = np.linspace(0, rng.uniform(1, 2), n)
+                    bottom = fem.mesh.Line(n=n).copy(points=np.vstack([x, 0.2 * rng.uniform(-1, 1, n)]).T)
+                    top = fem.mesh.Line(n=n).copy(points=np.vstack([x + 0.1 * rng.uniform(-1, 1, n), 1 + 0.2 * rng.uniform(-1, 1, n)]).T)
+                    t = np.concatenate([[-1.0], np.sort(rng.uniform(-0.9, 0.9, int(rng.integers(1, 4)))), [1.0]])
+                    t = t[np.concatenate([[True], np.diff(t) > 0.05])]
+                    f = bottom.fill_between(top, n=[t, t.tolist(), t[1:]][k])
+                    poly = np.vstack([bottom.points, top.points[::-1]])
+                    area = 0.5 * float(np.sum(poly[:, 0] * np.roll(poly[:, 1], -1) - np.roll(poly[:, 0], -1) * poly[:, 1]))
+                    if k < 2:
+                        v = OC.signed_volumes(f.points, f.cells, f.cell_type)
+                        run.compare("mesh.fill_between", "tool=fill_between clause=volume", abs(v.sum() - area) / area, 1e-11,
+                                    "fill_between(n=<positions from -1 to 1>): area differs from the area between the two lines", unit="fill_between:volume-array-n",
+                                    config=("fill_between", "array-n", k))
+                bottom.fill_between(top)                           # documented default: eleven layers
+                inner = fem.mesh.revolve(fem.Point(1)).expand(z=0.4).translate(0.2, axis=2)
+                outer = fem.mesh.revolve(fem.Point(2), phi=160).rotate(axis=2, angle_deg=20).expand(z=1.2)
+                # (as documented the inner surface is the first one: its columns point inwards ... the oracle decides which order is the positive one)
+                for first, second in ((inner, outer), (outer, inner)):
+                    fem.mesh.fill_between(first, second, n=6)
+                    first.fill_between(second, n=[-1, -0.5, 0.3, 1])
+                for k in range(2):
+                    q = fem.Rectangle(a=(0.2, 0.1), b=(1.7, 1.3), n=(int(rng.integers(3, 5)), int(rng.integers(2, 5))))
+                    xy = q.points
+                    lo = fem.Mesh(np.c_[xy, 0.1 * np.sin(2 * xy[:, 0]) * np.cos(xy[:, 1])], q.cells, "quad")
+                    hi = fem.Mesh(np.c_[xy + 0.05 * rng.uniform(-1, 1, xy.shape), 1.0 + 0.1 * rng.uniform(-1, 1, len(xy))], q.cells, "quad")
+                    h = lo.fill_between(hi, n=int(rng.integers(2, 5)))
+                    lo.fill_between(hi, n=np.array([-1.0, -0.2, 0.5, 1.0]))
+                    # closed form for this pair: the volume between two surfaces over the same (x, y) grid would need the in-plane shift;
+                    # stated instead for the unshifted pair: integral of the height difference, bilinear per cell
+                    hi0 = fem.Mesh(np.c_[xy, hi.points[:, 2]], q.cells, "quad")
+                    h0 = lo.fill_between(hi0, n=3)
+                    dz = (hi0.points[:, 2] - lo.points[:, 2])[q.cells]
+                    a0 = OC.signed_volumes(q.points, q.cells, "quad")
+                    vol = float((a0 * dz.mean(1)).sum())  # rectangular cells: the mean of the four corner heights times the cell area
+                    v = OC.signed_volumes(h0.points, h0.cells, h0.cell_type)
+                    run.compare("mesh.fill_between", "tool=fill_between celltype=quad clause=volume-between-surfaces", abs(v.sum() - vol) / vol, 1e-11,
+                                "fill_between of two quad surfaces over the same grid: volume differs from the integral of the height difference",
+                                unit="fill_between:volume-3d", config=("fill_between", "3d", k))
                 for k in range(4):
                     n = int(rng.integers(3, 7))
                     x = np.linspace(0, rng.uniform(1, 2), n)
@@ -389,7 +729,7 @@ def cases(tier, seed):
     out = []
     for rep in range(2 if tier == "quick" else 10):
         out.append(("generators:%d" % rep, case_generators(rep)))
-    for name in ("conversions", "triangulate", "revolve", "mirror", "merge", "fill_between"):
+    for name in ("conversions", "triangulate", "revolve", "mirror", "merge", "fill_between", "functions", "expand", "runouts"):
         out.append(("special:" + name, case_special(name)))
     for rep in range(42 if tier == "quick" else 1500):
         out.append(("program:%d" % rep, case_program(rep)))
@@ -410,6 +750,26 @@ def _required():
             "add_midpoints_volumes:centroid", "add_midpoints_edges:layout", "add_midpoints_faces:layout",
             "add_midpoints_volumes:layout", "convert:layout", "merge:corners", "merge:separation", "merge:count", "merge:count:coarse", "merge:count:higher-order",
             "container:volume", "container:held-mesh-attributes", "container:concatenate-held-meshes", "fill_between:volume"]
+    # third audit: point counts of the generators, length units, result types, undriven arguments / call styles / tools
+    for g in ("Line", "Rectangle", "Cube"):
+        req += ["gen.%s:grid-points" % g, "gen.%s:cell-count" % g]
+    req += ["gen.Grid:cell-count", "gen.Circle:counts", "gen.Triangle:counts", "generator:lagrange-order:1", "generator:lagrange-order:6", "generator:lagrange-order:7"]
+    req += ["generator-unit:%g" % u for u in UNITS[1:]] + ["program-unit:%g" % u for u in UNITS]
+    req += ["variant:renumbered", "variant:fortran-int32", "conversions:renumbered", "generator:documented-defaults", "triangulate:cell-count", "add_runouts:axis",
+            "add_runouts:ends", "add_runouts:orientation", "add_runouts:result-type"]
+    for t in ("rotate", "translate", "mirror", "flip", "triangulate", "expand", "revolve", "add_midpoints_edges", "add_midpoints_faces", "add_midpoints_volumes",
+              "convert", "disconnect", "merge_duplicate_points", "merge_duplicate_cells", "concatenate", "stack", "fill_between"):
+        req += [t + ":result-type"]
+    for t in ("add_midpoints_edges", "add_midpoints_faces", "add_midpoints_volumes", "convert", "collect_edges", "collect_faces", "collect_volumes"):
+        req += [t + ":centroid-set", t + ":shared-points"]
+    req += ["rotate:masked-positions", "expand:general-positions", "expand:general-volumes", "expand:uniform-orientation", "expand:vertex", "revolve:vertex",
+            "revolve:point-count", "convert:order0", "merge_duplicate_cells:distinct-cells", "merge_duplicate_cells:volume", "fill_between:layers",
+            "fill_between:cells", "fill_between:hook-orientation", "fill_between:volume-3d", "fill_between:volume-array-n", "container:stack-default",
+            "container:merge-method", "container:copy-append-pop", "concatenate:input-untouched", "stack:input-untouched", "function:input-untouched"]
+    req += ["call-style:" + st for st in MM.STYLES]
+    req += ["function:" + t for t in ("expand", "rotate", "revolve", "mirror", "flip", "translate", "triangulate", "convert", "add_midpoints_edges",
+                                      "add_midpoints_faces", "add_midpoints_volumes", "collect_edges", "collect_faces", "collect_volumes",
+                                      "merge_duplicate_points", "merge_duplicate_cells")]
     return req
 
 
@@ -420,8 +780,15 @@ SPEC = {
              "flip, triangulate modes 0/3, expand, revolve incl. closing 360 deg, order conversion, concatenate, merge with "
              "decimals None/8/5, disconnect); every call is judged by its post-hook against oracle-side signed cell volumes, "
              "intended measures, centroid and element-layout formulas; a configuration is distinct by program (sequence of "
-             "tool names) or (tool, cell type, clause)"),
+             "tool names) or (tool, cell type, clause). Bodies and tool arguments in four length units (1, 1e-3, 1e3, 1e-6), "
+             "handed over as generated / renumbered / Fortran-ordered with 32-bit cells, tools called as methods and as "
+             "module-level functions in the five documented call styles (by step index); point and cell counts of the "
+             "generators, (cell type, points per cell, dimension) of every result, all documented arguments of expand / "
+             "revolve / rotate / convert / disconnect / fill_between, collect_*, merge_duplicate_cells, the container interface"),
     "assumptions": ["oracle volumes use the vertex sub-cell of higher-order cells (their extra nodes are checked separately)",
+                    "cell type names follow the VTK / meshio rule 'vertex cell name + points per cell' for the ten named higher-order types; any other result carries None",
+                    "an argument the caller did not pass has the documented default (table in vmon/monitors/mesh.py), not the value in the signature under test",
+                    "expand with negative / decreasing layer positions or along another axis: measures, layer positions and uniformity of the orientation are judged, not its sense",
                     "revolve: volume of the polygonal sweep = sum sin(dphi) * integral of r dA (derived in vmon/monitors/mesh.py)"],
     "jobs": {"quick": 6, "thorough": 16},
 }
